@@ -50,3 +50,20 @@ Qed.
 
 Lemma generate_uuid_equiv lim u4 dashed : gen_generate_uuid lim u4 dashed = generate_uuid u4 dashed.
 Proof. reflexivity. Qed.
+
+Lemma translated_source_is_the_model :
+  (forall lim v strict d, gen_bool_from_string lim v strict d = bool_from_string lim v strict d) /\
+  (forall lim v, gen_int_from_bool_as_string lim v = int_from_bool_as_string lim v) /\
+  (forall lim v, gen_is_valid_boolstr lim v = is_valid_boolstr lim v) /\
+  (forall lim v, gen_is_int_like lim v = is_int_like lim v) /\
+  (forall lim v mn mx, gen_check_string_length lim v mn mx = check_string_length v mn mx) /\
+  (forall lim v lo hi, gen_validate_integer lim v lo hi = validate_integer lim v lo hi) /\
+  (forall lim s, gen_format_uuid_string lim s = format_uuid_string s) /\
+  (forall lim v, gen_is_uuid_like lim v = is_uuid_like lim v) /\
+  (forall lim u4 dashed, gen_generate_uuid lim u4 dashed = generate_uuid u4 dashed).
+Proof.
+  repeat split; intros.
+  - apply bool_from_string_equiv. - apply int_from_bool_as_string_equiv. - apply is_valid_boolstr_equiv.
+  - apply is_int_like_equiv. - apply check_string_length_equiv. - apply validate_integer_equiv.
+  - apply format_uuid_string_equiv. - apply is_uuid_like_equiv. - apply generate_uuid_equiv.
+Qed.
